@@ -186,20 +186,96 @@ def _terminate(tree):
     return out
 
 
+US = 1000000
+
+
+def _seconds_expr(node):
+    """translate the `seconds=` argument of the timedelta branch into a Lean Int term measured in
+    MICROSECONDS, as a function of `us` = the timedelta's exact length in microseconds.  Accepted:
+    `retention.total_seconds()`, `float(E)`, `int(E)` (truncation to whole seconds), `math.floor(E)`,
+    `math.ceil(E)`, `round(E)` is refused (half-even on floats), `E // k`/`E * k`/`E + k`/`E - k`
+    for int literals k, `abs(E)`, `-E`.  Anything else fails closed."""
+    src = _norm(node)
+    if src == "retention.total_seconds()":
+        return "us"
+    if isinstance(node, ast.Call) and not node.keywords and len(node.args) == 1:
+        f = _norm(node.func)
+        e = _seconds_expr(node.args[0])
+        if f == "float":
+            return e
+        if f == "int":
+            return "(Int.tdiv %s %d * %d)" % (e, US, US)
+        if f == "math.floor":
+            return "(Int.fdiv %s %d * %d)" % (e, US, US)
+        if f == "math.ceil":
+            return "(-(Int.fdiv (-%s) %d) * %d)" % (e, US, US)
+        if f == "abs":
+            return "(Int.natAbs %s : Int)" % e
+    if isinstance(node, ast.UnaryOp) and isinstance(node.op, ast.USub):
+        return "(-%s)" % _seconds_expr(node.operand)
+    if isinstance(node, ast.BinOp) and isinstance(node.right, ast.Constant) and isinstance(node.right.value, int) \
+            and not isinstance(node.right.value, bool):
+        e, k = _seconds_expr(node.left), node.right.value
+        if isinstance(node.op, ast.Add):
+            return "(%s + %d)" % (e, k * US)
+        if isinstance(node.op, ast.Sub):
+            return "(%s - %d)" % (e, k * US)
+        if isinstance(node.op, ast.Mult):
+            return "(%s * %d)" % (e, k)
+        if isinstance(node.op, ast.FloorDiv) and k > 0:
+            return "(Int.fdiv %s %d * %d)" % (e, k * US, US)
+    raise Unsupported("seconds= expression of the timedelta branch: " + src)
+
+
 def _dispatch(tree):
+    """`_make_retention_function`: None / str (parse_duration, ValueError when None, recursion on the
+    interval) / int -> count(number=<expr>) / timedelta -> age(seconds=<expr>) / callable / TypeError,
+    in this order; the two keyword expressions become kernels."""
     fn = find_func(tree, "_make_retention_function", cls="FileSink")
-    src = [_norm(s) for s in fn.body]
-    want_int = "if isinstance(retention, int):\n    return partial(Retention.retention_count, number=retention)"
-    want_td = ("if isinstance(retention, datetime.timedelta):\n"
-               "    return partial(Retention.retention_age, seconds=retention.total_seconds())")
-    want_call = "if callable(retention):\n    return retention"
-    for w in (want_int, want_td, want_call):
-        if w not in src:
-            raise Unsupported("_make_retention_function dispatch changed; missing: " + w.replace("\n", " "))
-    order = [src.index(want_int), src.index(want_td), src.index(want_call)]
-    if order != sorted(order):
-        raise Unsupported("_make_retention_function dispatch order changed")
-    return ""
+    if [a.arg for a in fn.args.args] != ["retention"]:
+        raise Unsupported("_make_retention_function signature")
+    body = fn.body
+    if len(body) != 6 or not all(isinstance(s, ast.If) and not s.orelse for s in body[:5]) \
+            or not isinstance(body[5], ast.Raise):
+        raise Unsupported("_make_retention_function: expected five `if` statements and a final raise")
+    tests = [_norm(s.test) for s in body[:5]]
+    want_tests = ["retention is None", "isinstance(retention, str)", "isinstance(retention, int)",
+                  "isinstance(retention, datetime.timedelta)", "callable(retention)"]
+    if tests != want_tests:
+        raise Unsupported("_make_retention_function dispatch tests/order changed: %r" % (tests,))
+    if [_norm(s) for s in body[0].body] != ["return None"]:
+        raise Unsupported("None branch")
+    sb = [_norm(s) for s in body[1].body]
+    if len(sb) != 3 or sb[0] != "interval = string_parsers.parse_duration(retention)" \
+            or not sb[1].startswith("if interval is None:\n    raise ValueError(") \
+            or sb[2] != "return FileSink._make_retention_function(interval)":
+        raise Unsupported("str branch changed: %r" % (sb,))
+    if _norm(body[5].exc.func) != "TypeError":
+        raise Unsupported("final raise is not a TypeError")
+    if [_norm(s) for s in body[4].body] != ["return retention"]:
+        raise Unsupported("callable branch")
+
+    def partial_kw(stmt, func, kw):
+        if len(stmt.body) != 1 or not isinstance(stmt.body[0], ast.Return):
+            raise Unsupported("branch is not a single return: " + _norm(stmt))
+        call = stmt.body[0].value
+        if not (isinstance(call, ast.Call) and _norm(call.func) == "partial" and len(call.args) == 1
+                and _norm(call.args[0]) == func and len(call.keywords) == 1 and call.keywords[0].arg == kw):
+            raise Unsupported("expected partial(%s, %s=...): %s" % (func, kw, _norm(call)))
+        return call.keywords[0].value
+
+    num = partial_kw(body[2], "Retention.retention_count", "number")
+    nterm, ntyp = Tr({"retention": ("retention", "int")}).tr(num)
+    if ntyp != "int":
+        raise Unsupported("number= is not an int expression")
+    sec = partial_kw(body[3], "Retention.retention_age", "seconds")
+    sterm = _seconds_expr(sec)
+    out = "/-- int branch: `number=%s` -/\n" % _norm(num)
+    out += "def countNumber (retention : Int) : Int := %s\n" % nterm
+    out += "/-- timedelta branch: `seconds=%s`, in MICROSECONDS as a function of the timedelta's exact length\n" % _norm(sec)
+    out += "in microseconds (total_seconds() is exact at this scale) -/\n"
+    out += "def ageSecondsUs (us : Int) : Int := %s\n\n" % sterm
+    return out
 
 
 def generate():
